@@ -99,7 +99,7 @@ ApplyOp(op, a, b) == CASE op = "+" -> IntV(a.v + b.v) [] op = "-" -> IntV(a.v - 
 RECURSIVE IsA(_, _)
 IsA(c, t) == IF c = t THEN TRUE
              ELSE IF c \notin DOMAIN P.classes THEN FALSE
-             ELSE \/ t \in {P.classes[c].impl[i] : i \in 1..Len(P.classes[c].impl)}
+             ELSE \/ \E i \in 1..Len(P.classes[c].impl) : IsA(P.classes[c].impl[i], t)   \* interfaces extend interfaces
                   \/ (P.classes[c].ext # "" /\ IsA(P.classes[c].ext, t))
 \* every user class extends \Exception; UnhandledMatchError is an \Error (caught by \Throwable only)
 Matches(clause, cls) == \E i \in 1..Len(clause.types) :
